@@ -83,10 +83,8 @@ def build(o, salt):
     if kind == "Track":
         return DropletTrack([make_droplet(d, salt) for d in o["drops"]], [make_time(t, salt) for t in o["times"]])
     if kind == "TimeCourse":
-        tc = EmulsionTimeCourse()
-        for ds, t in zip(o["mem"], o["times"]):
-            tc.append(Emulsion([make_droplet(d, salt) for d in ds], copy=False), make_time(t, salt))
-        return tc
+        return EmulsionTimeCourse([Emulsion([make_droplet(d, salt) for d in ds], copy=False) for ds in o["mem"]],
+                                  times=[make_time(t, salt) for t in o["times"]])
     tl = DropletTrackList()
     for ds, ts in zip(o["mem"], o["times"]):
         tl.append(DropletTrack([make_droplet(d, salt) for d in ds], [make_time(t, salt) for t in ts]))
